@@ -89,6 +89,7 @@ type Ctx struct {
 	decimals  map[string]*sym.Term
 	known     map[int]bool // conditions whose truth value is fixed on this path
 	civils    []civTriple
+	mapPolicy int
 
 	// limits
 	MaxSteps int64
@@ -162,6 +163,7 @@ func (c *Ctx) startPath(prefix []int) {
 	c.decimals = nil
 	c.known = map[int]bool{}
 	c.civils = nil
+	c.mapPolicy = -1
 	c.depth = 0
 	c.preempts = 0
 	c.Solver.Push()
